@@ -26,6 +26,8 @@ def main():
         elif a[0] == "--only": only = a[1].split(","); a = a[2:]
         else: a = a[1:]
     out = os.path.join(awt, "SEED_OUT")
+    if not os.path.isdir(out):
+        out = awt  # re-evaluation from /verif/seeded/<id>
     patch = os.path.join(out, "patch.diff")
     demo = os.path.join(out, "demo_test.go")
     assert os.path.exists(patch) and os.path.exists(demo), "agent output missing"
@@ -64,9 +66,15 @@ def main():
 def finish(meta, sid, out, wt):
     d = "/verif/seeded/%s" % sid
     os.makedirs(d, exist_ok=True)
+    prev = {}
+    if os.path.exists(os.path.join(d, "meta.json")):
+        prev = json.load(open(os.path.join(d, "meta.json")))
+    if prev.get("summary"):
+        meta["summary"] = prev["summary"]
     for f in ("patch.diff", "demo_test.go", "meta.txt"):
-        if os.path.exists(os.path.join(out, f)):
-            shutil.copy(os.path.join(out, f), os.path.join(d, f if f != "meta.txt" else "agent_notes.txt"))
+        src, dst = os.path.join(out, f), os.path.join(d, f if f != "meta.txt" else "agent_notes.txt")
+        if os.path.exists(src) and os.path.abspath(src) != os.path.abspath(dst):
+            shutil.copy(src, dst)
     if os.path.exists(os.path.join(d, "agent_notes.txt")):
         meta["needs_to_manifest"] = open(os.path.join(d, "agent_notes.txt")).read()[:3000]
     json.dump(meta, open(os.path.join(d, "meta.json"), "w"), indent=1)
